@@ -2,6 +2,7 @@
    proof files and followed by Print Assumptions. *)
 From Verif Require Import C12.Proofs.
 From Verif Require Import C12.TimeExact C12.TimeLine C12.HHWProofs C12.Run.
+From Verif Require Import C12.FieldNum C12.FieldScan C12.FieldIter C12.FieldAsm C12.LineRound C12.Reprint C12.PlainReq.
 From VerifGen Require Import Consts.
 From Coq Require Import Permutation Lia.
 Open Scope N_scope.
@@ -157,31 +158,120 @@ Theorem integer_text_roundtrip : forall z : Z, in_int64 z -> parse_int64 (fmt_z 
 Proof. exact parse_int64_fmt_z. Qed.
 Print Assumptions integer_text_roundtrip.
 
-(* ---- print_parse_roundtrip, the proved part: the key of a printed point parses to the canonical
-   key for any tag order, its timestamp text parses to the exact nanosecond value, field names
-   and string values survive their escape functions (escape_unescape_* above).  NOT proved:
-   scanFields/walkFields/the field iterator on a rendered field set, hence the composition
-   "parse (print p) = Ok (canon p)" for whole lines; that is checked on the real code per run
-   (reparse_ok and meaning_ok in Run.v). ---- *)
-Theorem print_parse_roundtrip_partial :
-  forall p tags' post (ts : Z) (prec : bytes),
+(* ---- print_parse_roundtrip.  An abstract point (Spec.apoint): measurement, tags, typed fields
+   (int64 | uint64 | float64 bits | bool | string bytes), optional timestamp.  Its text
+   (Reprint.print_point) is the key text with the tags in ANY order, a space, the field set as
+   Fields.MarshalBinary/appendField print it (Print.v: name escaped by escape.String, '=', decimal
+   + 'i' / decimal + 'u' / the AppendFloat text / true|false / '"' EscapeStringField '"', joined
+   by ','), and " " + decimal timestamp when there is one.  Reprint.wf_point: names non-empty and
+   not ending in a backslash, measurement and first field name not starting with tab/NUL (the
+   scanner skips them), tag keys distinct, at least one field, integers in int64, unsigned only
+   with uint support and <= MaxUint64, key sizes within MaxKeyLength, timestamp * unit within
+   [MinNanoTime, MaxNanoTime]; a float field's printed text ff b has the shape [-]digits[.digits]
+   and ParseFloat reads it back as b (the float text<->bits conversion is the oracle pair pf/ff:
+   these two facts about strconv are hypotheses of wf_point, not proved).
+   For EVERY such point and every tag order: parsePoint accepts the text; the point has the
+   canonical key (tags sorted by escaped key), the field text as written, the exact instant; and
+   Fields() returns exactly the typed fields: same names, same types, same values/bits, same order. *)
+Theorem print_parse_roundtrip :
+  forall (pf : bytes -> option N) (us : bool) (ff : N -> bytes) (p : apoint) (tags' : list (bytes * bytes))
+         (dflt : Z) (prec : bytes),
+  wf_point pf us ff p prec -> Permutation (a_tags p) tags' ->
+  parse_point pf us (print_point ff p tags') dflt prec =
+    Ok (mk_point (spec_key p) (print_fields ff (a_fields p)) (line_time (a_time p) prec dflt)) /\
+  point_fields pf 0 (mk_point (spec_key p) (print_fields ff (a_fields p)) (line_time (a_time p) prec dflt)) =
+    Ok (a_fields p).
+Proof. exact Reprint.print_parse_roundtrip. Qed.
+Print Assumptions print_parse_roundtrip.
+
+(* the same for every accepted spelling of the values, not only the printed one: booleans written
+   t T true True TRUE f F false False FALSE, floats written as any [-]digits-and-at-most-one-dot text
+   with a digit (1. .5 -.5 -0 007) that ParseFloat reads as the bits (FieldIter.val_text_ok);
+   l gives, per field, the escaped name and the value text *)
+Theorem print_parse_roundtrip_any_spelling :
+  forall (pf : bytes -> option N) (us : bool) (p : apoint) (tags' : list (bytes * bytes)) (l : list (bytes * bytes))
+         (dflt : Z) (prec : bytes),
   akey_ok (a_meas p) (a_tags p) = true -> NoDup (map fst (a_tags p)) -> Permutation (a_tags p) tags' ->
-  in_int64 ts ->
-  (c12_min_nano_time <= ts * spec_mult prec <= c12_max_nano_time)%Z ->
-  scan_key (key_text (a_meas p) tags' ++ c_space :: post) 0 = Ok (length (key_text (a_meas p) tags'), spec_key p) /\
-  parse_int64 (fmt_z ts) = Some ts /\
-  safe_calc_time ts prec = Ok (tm_of_unix_nano (ts * spec_mult prec)%Z) /\
-  tm_unix_nano (tm_of_unix_nano (ts * spec_mult prec)%Z) = (ts * spec_mult prec)%Z.
+  N.of_nat (length (spec_key p)) <= c12_max_key_length ->
+  a_fields p <> [] -> Forall2 (fld_rel pf us) (a_fields p) l ->
+  match render_fields l with c :: _ => is_ws c = false | [] => True end ->
+  Forall (fld_size_ok (length (spec_key p))) l ->
+  time_ok (a_time p) prec ->
+  parse_point pf us (key_text (a_meas p) tags' ++ c_space :: render_fields l ++ ts_suffix (a_time p)) dflt prec =
+    Ok (mk_point (spec_key p) (render_fields l) (line_time (a_time p) prec dflt)) /\
+  point_fields pf 0 (mk_point (spec_key p) (render_fields l) (line_time (a_time p) prec dflt)) = Ok (a_fields p).
+Proof. exact LineRound.line_roundtrip. Qed.
+Print Assumptions print_parse_roundtrip_any_spelling.
+
+(* the field set alone, after ANY prefix: scanFields consumes exactly the rendered field set (one
+   '=' per field, one ',' between fields), walkFields' key-size pass succeeds, and the field
+   iterator / Fields() on the stored text yields the typed fields *)
+Theorem fields_roundtrip :
+  forall (pf : bytes -> option N) (us : bool) (pre : bytes) (afs : list (bytes * fvalue)) (l : list (bytes * bytes))
+         (rest : bytes) (keylen : nat),
+  afs <> [] -> Forall2 (fld_rel pf us) afs l -> space_or_end rest ->
+  match render_fields l with c :: _ => is_ws c = false | [] => True end ->
+  Forall (fld_size_ok keylen) l ->
+  scan_fields pf us (pre ++ c_space :: render_fields l ++ rest) (length pre) =
+    Ok (length (pre ++ c_space :: render_fields l), render_fields l) /\
+  walk_fields_keysize (S (length (render_fields l))) keylen (render_fields l) = Ok tt /\
+  (forall key t, point_fields pf 0 (mk_point key (render_fields l) t) = Ok afs).
+Proof. exact FieldAsm.fields_roundtrip. Qed.
+Print Assumptions fields_roundtrip.
+
+(* ---- accepted_line_reprints_stable, PARTIAL.  Proved: for every line that renders some well-formed
+   point (tags in any order, values in any accepted spelling, optional timestamp at any precision)
+   the parser accepts it, Fields() does not error, and String() of the parsed point parses again
+   (precision n, any default time) to exactly the same point: same key, same field text, same time.
+   MISSING: the statement for EVERY byte string the parser accepts.  Accepted lines outside the
+   image above — redundant backslashes in names and strings ("a\b=1", "s=\"x\\y\""), adjacent
+   quoted pieces ("s=\"x\"\"y\""), leading zeros / "-0i", exponent floats ("1e5"), extra
+   whitespace — are covered only by the per-run check (reparse_ok computed on the real code for
+   every accepted point, compared by check_case) and by parser_never_crashes /
+   decoded_points_are_usable. ---- *)
+Theorem accepted_line_reprints_stable_partial :
+  forall (pf : bytes -> option N) (us : bool) (p : apoint) (tags' : list (bytes * bytes)) (l : list (bytes * bytes))
+         (dflt : Z) (prec : bytes) (dflt' : Z),
+  akey_ok (a_meas p) (a_tags p) = true -> NoDup (map fst (a_tags p)) -> Permutation (a_tags p) tags' ->
+  N.of_nat (length (spec_key p)) <= c12_max_key_length ->
+  a_fields p <> [] -> Forall2 (fld_rel pf us) (a_fields p) l ->
+  match render_fields l with c :: _ => is_ws c = false | [] => True end ->
+  Forall (fld_size_ok (length (spec_key p))) l ->
+  time_ok (a_time p) prec ->
+  (c12_min_nano_time <= line_ns (a_time p) prec dflt <= c12_max_nano_time)%Z ->
+  exists pt,
+    parse_point pf us (key_text (a_meas p) tags' ++ c_space :: render_fields l ++ ts_suffix (a_time p)) dflt prec = Ok pt /\
+    point_fields pf 0 pt = Ok (a_fields p) /\
+    parse_point pf us (point_string pt) dflt' [110] = Ok pt.
+Proof. exact Reprint.rendered_line_reprints_stable. Qed.
+Print Assumptions accepted_line_reprints_stable_partial.
+
+(* the same at the level of the request (ParsePointsWithPrecision = scanLine + parsePoint), PARTIAL:
+   proved for a printed point whose text has no newline, double quote or backslash (so: no string
+   fields, no escaped bytes in names) and does not start with '#': sent as the whole request it
+   yields exactly that one point and no error.  MISSING: lines with quoted strings / escapes, where
+   scanLine's own quote tracking decides the block (bad_line_isolated covers closed lines; the
+   per-run isolation_ok / meaning_ok checks cover the rest on the real code). *)
+Theorem print_parse_roundtrip_request_partial :
+  forall (pf : bytes -> option N) (us : bool) (ff : N -> bytes) (p : apoint) (tags' : list (bytes * bytes))
+         (dflt : Z) (prec : bytes),
+  wf_point pf us ff p prec -> Permutation (a_tags p) tags' ->
+  forallb very_plain (print_point ff p tags') = true ->
+  match print_point ff p tags' with c :: _ => (c =? c_hash) = false | [] => True end ->
+  parse_points pf us (print_point ff p tags') dflt prec =
+    Ok [LPoint (mk_point (spec_key p) (print_fields ff (a_fields p)) (line_time (a_time p) prec dflt))].
+Proof. exact PlainReq.plain_request_roundtrip. Qed.
+Print Assumptions print_parse_roundtrip_request_partial.
+
+(* the value texts: what scanNumber / scanBoolean accept and the typed accessors return *)
+Theorem value_text_roundtrip :
+  forall (pf : bytes -> option N) (us : bool) (fv : fvalue) (txt : bytes),
+  val_text_ok pf us fv txt -> vscan pf us txt /\ viter txt /\ field_value pf false txt = Ok fv.
 Proof.
-  intros p tags' post ts prec Hok Hnd Hp Hts Hr.
-  split; [exact (key_meaning p tags' post Hok Hnd Hp)|].
-  split; [exact (parse_int64_fmt_z ts Hts)|].
-  split.
-  - rewrite (safe_calc_time_spec ts prec Hts).
-    destruct Hr as [H1 H2]. apply Z.leb_le in H1, H2. rewrite H1, H2. reflexivity.
-  - apply unix_nano_roundtrip. unfold in_int64, c12_min_nano_time, c12_max_nano_time in *. lia.
+  intros pf us fv txt H. split; [exact (val_text_vscan pf us fv txt H)|].
+  split; [exact (val_text_viter pf us fv txt H)|exact (val_text_field_value pf us fv txt H)].
 Qed.
-Print Assumptions print_parse_roundtrip_partial.
+Print Assumptions value_text_roundtrip.
 
 (* ---- timestamp_exact_or_rejected: the timestamp at the requested precision, with SafeCalcTime /
    safeSignedMult modelled on wrapping int64 (product taken mod 2^64, then the divide-back test
@@ -329,3 +419,52 @@ Example precision_nonvacuous :
   safe_calc_time 2562047 [104] = Ok (tm_of_unix_nano 9223369200000000000) /\
   safe_calc_time 2562048 [104] = Err 20 /\ safe_calc_time 9223372036854775807 [115] = Err 20.
 Proof. vm_compute. repeat split; reflexivity. Qed.
+
+(* ---- non-vacuity of print_parse_roundtrip: a nasty point.
+   cpu , tags b="2", a="1 x" (written unsorted) ;
+   fields  a,b= c"  = string  q"\   ;  f = float -0.5 ;  i = MinInt64 ;  t = true ;  u = MaxUint64 ;
+   x\ y = string ending in two backslashes ; timestamp -5 at precision s *)
+Definition ex_bits : N := 13826050856027422720.      (* -0.5 *)
+Definition ex_pf (s : bytes) : option N := if bytes_eqb s [45;48;46;53] then Some ex_bits else None.
+Definition ex_ff (_ : N) : bytes := [45;48;46;53].
+Definition ex_point : apoint :=
+  mk_apoint [99;112;117] [([98],[50]); ([97],[49;32;120])]
+    [([97;44;98;61;32;99;34], FString [113;34;92]); ([102], FFloat ex_bits); ([105], FInt (-9223372036854775808)%Z);
+     ([116], FBool true); ([117], FUint 18446744073709551615); ([120;92;32;121], FString [92;92])]
+    (Some (-5)%Z).
+
+Example print_parse_nonvacuous_wf : wf_point ex_pf true ex_ff ex_point [115].
+Proof.
+  unfold wf_point. split; [reflexivity|]. split.
+  { cbn [ex_point a_tags map fst]. constructor; [intros [H|[]]; discriminate|]. constructor; [intros []|constructor]. }
+  split; [discriminate|]. split.
+  { unfold ex_point. cbn [a_fields].
+    repeat (apply Forall_cons; [split; [reflexivity|cbn [snd value_ok]]|]); try apply Forall_nil; try exact I.
+    - exists true, [48;46;53]. repeat split; reflexivity || (cbn; lia).
+    - unfold TimeProofs.in_int64. lia.
+    - split; [reflexivity|vm_compute; discriminate]. }
+  split; [reflexivity|]. split.
+  { split; [vm_compute; discriminate|]. unfold ex_point. cbn [a_fields]. repeat constructor; vm_compute; discriminate. }
+  unfold time_ok, ex_point. cbn [a_time]. split; [unfold TimeProofs.in_int64; lia|]. vm_compute. split; discriminate.
+Qed.
+
+(* and the theorem's conclusion, computed: the text, and what Fields() of the parsed point returns *)
+Example print_parse_nonvacuous_run :
+  let line := print_point ex_ff ex_point [([98],[50]); ([97],[49;32;120])] in
+  match parse_point ex_pf true line 0%Z [115] with
+  | Ok pt => p_key pt = [99;112;117;44;97;61;49;92;32;120;44;98;61;50] /\
+             point_fields ex_pf 0 pt = Ok (a_fields ex_point) /\ tm_unix_nano (p_time pt) = (-5000000000)%Z /\
+             parse_point ex_pf true (point_string pt) 77%Z [110] = Ok pt
+  | _ => False
+  end.
+Proof. vm_compute. repeat split; reflexivity. Qed.
+
+(* every accepted boolean spelling and dotted float forms mean the same value *)
+Example spellings_nonvacuous :
+  val_text_ok ex_pf true (FBool true) [84;114;117;101] /\ val_text_ok ex_pf true (FBool false) [70] /\
+  val_text_ok (fun s => if bytes_eqb s [46;53] then Some 4602678819172646912 else None) false (FFloat 4602678819172646912) [46;53].
+Proof.
+  split; [cbn; auto|]. split; [cbn; auto|].
+  exists false, [46;53]. repeat split; reflexivity || (cbn; lia).
+Qed.
+
